@@ -278,10 +278,14 @@ namespace sbepp
 #    define SBEPP_ASSERT(expr) assert(expr)
 #endif
 
-#define SBEPP_SIZE_CHECK(begin, end, offset, size) \
-    SBEPP_ASSERT(                                  \
-        (begin) && ((begin) <= (end))              \
-        && (((offset) + (size)) <= static_cast<std::size_t>((end) - (begin))))
+// `offset` and `size` are checked separately because their sum can wrap around
+// (e.g. 64-bit `<data>` length taken from an untrusted buffer)
+#define SBEPP_SIZE_CHECK(begin, end, offset, size)                     \
+    SBEPP_ASSERT(                                                      \
+        (begin) && ((begin) <= (end))                                  \
+        && ((offset) <= static_cast<std::size_t>((end) - (begin)))     \
+        && ((size)                                                     \
+            <= (static_cast<std::size_t>((end) - (begin)) - (offset))))
 
 //! @brief The main `sbepp` namespace
 namespace sbepp
@@ -3491,8 +3495,8 @@ public:
         SBEPP_SIZE_CHECK(
             (*this)(addressof_tag{}),
             (*this)(end_ptr_tag{}),
-            0,
-            sizeof(size_type) + count);
+            sizeof(size_type),
+            count);
         set_primitive<E>((*this)(addressof_tag{}), count);
     }
 
@@ -3706,8 +3710,8 @@ private:
         SBEPP_SIZE_CHECK(
             (*this)(detail::addressof_tag{}),
             (*this)(detail::end_ptr_tag{}),
-            0,
-            sizeof(size_type) + size());
+            sizeof(size_type),
+            size());
         return data_unchecked();
     }
 
